@@ -1,11 +1,13 @@
 # w13: tool glue code that consumes inode / tree node objects (rdsquashfs stat
 # and list, sqfsdiff, sqfs2tar iterator) on arbitrary wf_inode objects.
-FUNCTIONS = ["stat_file"]
+FUNCTIONS = ["stat_file", "list_files", "print_node_size", "mode_to_str", "count_int_chars", "print_size", "it_open_subdir (loop refusal, parent reference)", "it_destroy",
+             "sqfs_dir_iterator_create (as called by it_open_subdir)"]
 TRUSTED = [
     "printf / fprintf / fputs / fputc / sprintf / perror contract (harness/C05/w13_env.h): reads exactly the arguments its format demands, every %s argument up to its terminator or precision; sprintf writes the C-standard number of characters plus NUL; gmtime / strftime contracts (NULL only for a year that overflows int; output <= 39 characters for the format of stat.c)",
     "glibc gnu_dev_major / gnu_dev_minor bit layout (harness model)",
 ]
 ASSUMPTIONS = [
+    "w13: NOT covered (time): bin/sqfsdiff/src/* (node_compare, compare_dir, compare_files, extract, util), tar_compat_iterator_create and write_entry of sqfs2tar, rdsquashfs list of a directory with children beyond the one registered thorough case",
     "the tools' functions are verified one by one from an arbitrary wf_inode (exactly the postcondition of harness read_inode: wf_type, wf_payload, wf_file_blocks, wf_slink_nul, wf_dir_index) per node; tree SHAPES are concrete and small (see labels), all values symbolic",
     "--conversion-check is off in w13_stat: (int)link_size / (int)(idx->size + 1) as printf precision are implementation-defined narrowing (gcc: modulo 2^32), a negative precision means 'no precision' and the terminator behind the target / name (wf_slink_nul, C05.unpack_index.result) bounds the read - this case is covered by printf.string_arg",
 ]
@@ -18,6 +20,8 @@ _PR_UNWIND = ["pr_vfmt.0:3", "pr_vfmt.1:12", "pr_vfmt.2:12", "pr_vfmt.3:4", "pr_
               "pr_ndigits.0:24", "pr_putn.0:24", "pr_init.0:13", "pr_forget.0:13",
               "pr_known.0:13", "pr_known.1:50", "verif_nd_bytes.0:8"]
 
+_PRE_UNWIND = ["--unwindset", ",".join(_PR_UNWIND[:-1]), "--unwinding-assertions"]
+
 def _stat_cases():
     out = []
     for t, n in sorted(_INODE_NAMES.items()):
@@ -26,23 +30,50 @@ def _stat_cases():
         if t == 8:
             for k in (0, 1, 2):
                 out.append(dict(id="dir_ext_idx%d" % k, defines={"ITYPE": 8, "NENT": k},
-                                tier="quick", unwindset=_PR_UNWIND + ["stat_file.0:2", "stat_file.1:%d" % (k + 2)]))
+                                tier="quick" if k < 2 else "thorough", unwindset=_PR_UNWIND + ["stat_file.0:2", "stat_file.1:%d" % (k + 2)]))
         else:
             out.append(dict(id=n, defines={"ITYPE": t}, tier="quick"))
     return out
 
 HARNESSES = [
+    # directory loops / parent reference of the squashfs directory iterator
+    # (chain built through the real create / open_subdir; see the file header)
+    dict(name="w13_dir_iter_loop", file="w13_dir_iter_loop.c", timeout=300, malloc_fail=True,
+         label="bounded(iterator chain <= 2 ancestors)",
+         flags=["--memory-leak-check", "--arrays-uf-always"],
+         fp={"read_at": "stub_read_at", "do_block": "stub_do_block",
+             "destroy": ["di_obj_destroy", "it_destroy"], "copy": "di_obj_copy",
+             "open_subdir": "it_open_subdir"},
+         cases=[dict(id="chain%d_order%d" % (c, o), defines={"CHAIN": c, "ORDER": o}, tier="quick",
+                     unwind=c + 6)
+                for c in (0, 1, 2) for o in (0, 1)]),
     # all 14 inode types: 12 here (ext. directory with 0..2 index entries) ...
     dict(name="w13_stat", file="w13_stat.c", timeout=300, malloc_fail=True,
          label="bounded(dir index entries <= 2)",
          nochecks=["--conversion-check"], flags=["--memory-leak-check", "--arrays-uf-always"],
          unwindset=_PR_UNWIND + ["stat_file.0:2", "stat_file.1:2"],
          cases=_stat_cases()),
-    # ... and the two file types with the loop contract on the block word walk
-    dict(name="w13_stat_file", file="w13_stat.c", label="proved", timeout=300, malloc_fail=True,
-         nochecks=["--conversion-check"], flags=["--memory-leak-check", "--arrays-uf-always"],
-         loops=["stat_file"], loop_tables=["C05_w13"],
-         unwindset=_PR_UNWIND + ["stat_file.1:2"],
-         cases=[dict(id="file", defines={"ITYPE": 2}, tier="quick"),
-                dict(id="file_ext", defines={"ITYPE": 9}, tier="quick")]),
+    # ... and the two file types. A loop contract on the block word walk
+    # (contracts/loops/C05_w13.tbl, kept) needs the loops of the printf contract
+    # unwound by goto-instrument first ("inner loop without contract"); that
+    # pre-pass did not finish in 4 minutes, so the walk is bounded instead.
+    dict(name="w13_stat_file", file="w13_stat.c", label="bounded(block words <= 3)", timeout=300,
+         malloc_fail=True, nochecks=["--conversion-check"],
+         flags=["--memory-leak-check", "--arrays-uf-always"],
+         defines={"W13_MAXBLK": 3},
+         unwindset=_PR_UNWIND + ["stat_file.0:5", "stat_file.1:2"],
+         cases=[dict(id="file", defines={"ITYPE": 2, "W13_MAXBLK": 3}, tier="quick"),
+                dict(id="file_ext", defines={"ITYPE": 9, "W13_MAXBLK": 3}, tier="quick")]),
+    # rdsquashfs -l: single node of every type; a directory with two children
+    dict(name="w13_list", file="w13_list.c", timeout=300, malloc_fail=True, object_bits=10,
+         label="bounded(children <= 2, symlink target <= 6 bytes)",
+         flags=["--memory-leak-check", "--arrays-uf-always"],
+         unwindset=_PR_UNWIND + ["list_files.0:4", "list_files.1:4", "count_int_chars.0:11",
+                                 "print_size.0:8", "strlen.0:34"],
+         cases=[dict(id="one_%s" % n, defines={"SHAPE": 0, "T0": t}, tier="quick")
+                for t, n in sorted(_INODE_NAMES.items())] +
+               # directory with two children: 257 s for this pair, the other pairs of
+               # the file header did not finish in 290 s under load - one is registered
+               [dict(id="dir_dir_slink_ext", defines={"SHAPE": 1, "T0": 1, "T1": 10},
+                     tier="thorough", timeout=1500)]),
 ]
